@@ -414,7 +414,7 @@ def gen_CORRELOGRAMPSD(rng, n, nimpl, nflt):
             S = S / N
         elif norm == 'unbiased':
             S = S / max(1, N - lag)
-        c.add_flt('f_correlogram 0 0x1.12e0be826d695p-30 %s %s prog_CORRELOGRAMPSD %s %s %s %d%%nat %s %s %s (Some "CORRELATION"%%string) %s %s %s %s' % (
+        c.add_flt('f_correlogram 0x1.12e0be826d695p-30 0x1.12e0be826d695p-30 %s %s prog_CORRELOGRAMPSD %s %s %s %d%%nat %s %s %s (Some "CORRELATION"%%string) %s %s %s %s' % (
             fl(1e-6 * S + 1e-300), fcl(twtab(nn) if nn >= 1 else []), b2c(not cx), fcl(x), farr(y, not cy), lag, fcl(wd), nfft_txt(nfft), nm_txt(norm), fc(r1), fc(r2),
             oexc(ex), fcl([] if ex is not None else out)),
             x=vlib.hexv(x), y=None if y is None else vlib.hexv(y), lag=lag, NFFT=nfft, norm=norm, window=name, impl_raised=ex)
